@@ -406,9 +406,8 @@ type c13Env struct {
 	// outpoints whose spending transaction the nursery published.
 	nursery          *UtxoNursery
 	rawStore         *NurseryStore
-	confSubs         []*c13ConfSub
+	net              *ccNurseryNet
 	nurseryPublished map[wire.OutPoint]bool
-	nurseryConfs     int
 
 	inputs []c13InputRec
 
@@ -444,6 +443,7 @@ func newC13Env(sc *ccScenario, plan *c13Plan, w *ccWorld) *c13Env {
 		tapClaims: make(map[wire.OutPoint]ccClaim),
 
 		nurseryPublished: make(map[wire.OutPoint]bool),
+		net:              &ccNurseryNet{w: w},
 	}
 	if plan.conf > ccP {
 		if plan.conf == ccBreach && sc.ChanKind == 2 {
@@ -741,7 +741,7 @@ func (e *c13Env) pumpNursery(inc *ccInc) string {
 			}
 		}})
 	}
-	confKeys, confDo := e.confCandidates(inc)
+	confKeys, confDo := e.net.confCandidates(inc)
 	for _, k := range confKeys {
 		cs = append(cs, cand{k, confDo[k]})
 	}
